@@ -40,6 +40,7 @@
 #include <xalanc/XalanTransformer/XercesDOMParsedSource.hpp>
 #include <xalanc/XalanTransformer/XalanCAPI.h>
 
+#include <dlfcn.h>
 #include <algorithm>
 #include <map>
 #include <cstdio>
@@ -505,6 +506,18 @@ static void runCase(const Case& c)
             bytes = (rc == 0 && data) ? std::string(data) : std::string();
             if (data) XalanFreeData(data);
             report("c", "file", y == 0 ? "is" : "pi", "data", rc, &bytes, 0);
+            // the length-reporting companion (proposed/C05-capi-data-length.diff), when the library has it
+            typedef int (*ToDataLenFn)(const char*, const char*, char**, unsigned long*, XalanHandle);
+            static const ToDataLenFn toDataLen = (ToDataLenFn)dlsym(RTLD_DEFAULT, "XalanTransformToDataWithLength");
+            if (toDataLen != 0)
+            {
+                unsigned long len = 0;
+                data = 0;
+                rc = toDataLen(c.xml.c_str(), xsl, &data, &len, h);
+                bytes = (rc == 0 && data) ? std::string(data, len) : std::string();
+                if (data) XalanFreeData(data);
+                report("c", "file", y == 0 ? "is" : "pi", "datalen", rc, &bytes, 0);
+            }
         }
         {
             Sink sink = { std::string(), 0, 0 };
@@ -526,6 +539,17 @@ static void runCase(const Case& c)
                 bytes = (rc == 0 && data) ? std::string(data) : std::string();
                 if (data) XalanFreeData(data);
                 report("c", p.name, s.name, "data", rc, &bytes, 0);
+                typedef int (*ToDataPreLenFn)(XalanPSHandle, XalanCSSHandle, char**, unsigned long*, XalanHandle);
+                static const ToDataPreLenFn toDataPreLen = (ToDataPreLenFn)dlsym(RTLD_DEFAULT, "XalanTransformToDataPrebuiltWithLength");
+                if (toDataPreLen != 0)
+                {
+                    unsigned long len = 0;
+                    data = 0;
+                    rc = toDataPreLen(p.p, s.s, &data, &len, h);
+                    bytes = (rc == 0 && data) ? std::string(data, len) : std::string();
+                    if (data) XalanFreeData(data);
+                    report("c", p.name, s.name, "datalen", rc, &bytes, 0);
+                }
                 Sink sink = { std::string(), 0, 0 };
                 rc = XalanTransformToHandlerPrebuilt(p.p, s.s, h, &sink, sinkWrite, sinkFlush);
                 report("c", p.name, s.name, "cb", rc, &sink.data, 0);
